@@ -931,6 +931,16 @@ fn gen_op_dir(rng: &mut Rng, names: &[String], focus: &[String]) -> Op {
             }
             tree.push((path, name));
         }
+        // rarely one directory holds several dozen sources (whatever splits a directory's files into
+        // batches or shares has to account for every one of them)
+        if !alias && rng.chance(1, 25) {
+            tree.clear();
+            let n = rng.range(33, 50);
+            let wide_dir = *rng.pick(&dirs);
+            for i in 0..n {
+                tree.push((format!("{}/w{:02}.sol", wide_dir, i), pick_name(rng)));
+            }
+        }
         // inert neighbours (never analysed; their pool text is irrelevant): a walk must get past them
         if rng.chance(1, 3) {
             for _ in 0..rng.range(1, 2) {
